@@ -74,6 +74,18 @@ class BaseDataset(Dataset):
         self.scale = scale
         self.apply_aug = apply_aug
         self.max_hw = max_hw
+        # `max_height`/`max_width` set in the config take precedence over `max_hw`.
+        preprocessing = (
+            data_config.get("preprocessing", None) if data_config is not None else None
+        )
+        if preprocessing is not None:
+            cfg_hw = (
+                preprocessing.get("max_height", None),
+                preprocessing.get("max_width", None),
+            )
+            self.max_hw = tuple(
+                c if c is not None else m for c, m in zip(cfg_hw, max_hw)
+            )
         self.max_instances = get_max_instances(self.labels) if self.labels else None
         self.lf_idx_list = self._get_lf_idx_list() if self.labels else None
         self.np_chunks = np_chunks
